@@ -232,6 +232,18 @@ def read_ndjson(path):
     return out
 
 
+def read_ndjson_head(path, n):
+    out = []
+    with open(path) as fh:
+        for line in fh:
+            line = line.strip()
+            if line:
+                out.append(json.loads(line))
+            if len(out) >= n:
+                break
+    return out
+
+
 def write_ndjson(path, recs):
     with open(path, "w") as fh:
         for r in recs:
